@@ -110,6 +110,7 @@ class C02(Harness):
     fuel = 80000
     bounds = {'quick': {'free_text_max_chars': 3, 'doc_value_max_chars': 1}, 'thorough': {'free_text_max_chars': 4, 'doc_value_max_chars': 2}}
     assumptions = ['free text: every string of 0..N Unicode scalar values per entry point (N per tier and entry point, in coverage.per_case); for the field codecs additionally every length (<= 12) that a string constant reachable in their MIR has, fully symbolic',
+                   'VCS fields: url, separator, "[" subpath "]", separator, "-b", separator, branch with every separator and component character symbolic',
                    'typed documents: a base document accepted by the real reader (mandatory fields found by native probing) in which one field value is replaced by symbolic text',
                    'std::io::Read is an environment stub delivering the text; from_file*, pyo3 and OOM/stack depth are outside the claim',
                    'wall-clock complexity is not decided; every path is bounded by a fuel of basic blocks and hangs are confirmed natively under a watchdog']
@@ -134,6 +135,10 @@ class C02(Harness):
                 for n in lens: cs.append({'entry': entry, 'fam': 'free', 'n': n, 'name': None, 'order': 4, 'kw': True})
         except Exception as ex:
             print('C02: keyword-length cases skipped: %r' % (ex,))
+        # VCS locations: "<url><sep>[<subpath>]" and "<url><sep>-b<sep><branch>" with symbolic separators and components
+        for entry in ('control::vcs::ParsedVcs::from_str', 'control::vcs::Vcs::from_field'):
+            for nm in ((['Git', 'Cvs'] if tier == 'quick' else ['Git', 'Bzr', 'Cvs']) if entry.endswith('from_field') else [None]):
+                cs.append({'entry': entry, 'fam': 'vcs', 'n': 1 if tier == 'quick' else 2, 'name': nm, 'order': 3})
         # typed documents
         try:
             rp = replay_mod.Replay(replay_mod.build())
@@ -156,6 +161,15 @@ class C02(Harness):
         crate, callee, kind = ENTRIES[entry]
         if case['fam'] == 'free':
             s = sym_text(e, case['n'])
+        elif case['fam'] == 'vcs':
+            def part(name, mx):
+                return [e.fresh_char(name) for _ in range(e.choose(name + 'len', mx) + 1)]
+            chars = part('u', case['n'])
+            shape = e.choose('shape', 3)
+            if shape in (0, 2): chars += [e.fresh_char('sep'), 91] + part('p', case['n']) + [93]
+            if shape in (1, 2): chars += [e.fresh_char('sep'), 45, 98, e.fresh_char('sep')] + part('b', case['n'])
+            if e.choose('tail', 2): chars += [e.fresh_char('t')]
+            s = Str(chars)
         else:
             # base document with one field value symbolic (0..n chars, no line terminators)
             k = e.choose('vl', case['n'] + 1)
